@@ -30,7 +30,7 @@ def judge(ctx, tr, driver, cfg=None):
     ev = vlib.read_ndjson(tr)
     for f in fails:
         e = ev[f["i"] - 1]
-        ctx.report(classify(e, f["mon"]), {"driver": driver, "events": [e]})
+        ctx.report(dict(classify(e, f["mon"]), conforms=f.get("conforms", True)), {"driver": driver, "events": [e]})
     return ev
 
 
